@@ -333,6 +333,16 @@ class Lab:
                     if _name in ("upload", "rename", "delete") and a:
                         obj = self.p[_side]._mock_fs.get(a[0])
                         rec[2] = rec[2] + ["@" + str(obj.path if obj is not None else None)]
+                    if _name in ("create", "upload") and len(a) > 1 and hasattr(a[1], "read"):
+                        # spurious transfer = the target already holds exactly this content at this path
+                        try:
+                            data = a[1].read()
+                            a[1].seek(0)
+                            pth = a[0] if _name == "create" else (self.p[_side]._mock_fs.get(a[0]).path if self.p[_side]._mock_fs.get(a[0]) else None)
+                            cur = self.p[_side]._mock_fs.get(self.p[_side].normalize_path(pth)) if pth else None
+                            rec.append({"spurious": bool(cur is not None and cur.exists and cur.contents == data)})
+                        except Exception:
+                            rec.append({"spurious": None})
                     self.calls.append(rec)
                     r = _orig(*a, **k)
                     rec.append("ok")
